@@ -28,5 +28,5 @@ CFG = dict(
     assumptions=['wfd d t: schema lengths equal tuple widths in d, projection/key/group-by indices in range, equal-length key lists (repeated right keys allowed), Union inputs of equal width',
                  'novoid t: no Filter(_,False), no Union[] (only for the composite theorem)',
                  'Counting semiring (isize diffs); BooleanDiff saturates at 127 duplicates',
-                 'floats are NaN-free multiples of 2^-k; i64 arithmetic in predicates does not overflow; Sum is the clamped exact sum'],
+                 'malformed plans whose broken index feeds a missing column (Null) into Compute arithmetic leave the modelled integer-arithmetic fragment (the code continues in f64): the checker detects this per case and skips only the model/implementation comparison there; well-formed generated plans must stay inside the fragment (checked)', 'floats are NaN-free multiples of 2^-k; i64 arithmetic in predicates does not overflow; Sum is the clamped exact sum'],
 )
